@@ -330,11 +330,18 @@ func shaTable(q *pb.QuoteV4) core.Sexp {
 }
 
 func C16(c *core.Ctx) {
-	c.Rule = "quotes from the world generator (valid under a generated PKI; QE auth data 0 / 32 / 700 bytes; extra bytes present or not) as raw bytes inside a sentinel-filled buffer with spare capacity, parsed (abi.QuoteToProto), rebuilt field by field under six memory layouts (exact capacity; own block with sentinel spare capacity; one arena with the fields back to back; reversed arena; equal fields aliased; QE auth data directly behind the attestation key inside its capacity, with gaps 0 / 16 / 200), and decoded from protobuf; around each single call of verify.TdxQuote (three option levels), verify.RawTdxQuote, validate.TdxQuote (options in sentinel buffers with spare capacity), validate.RawTdxQuote, abi.QuoteToAbiBytes, verify.ExtractChainFromQuote and abi.QuoteToProto a snapshot of every block reachable from the message, the raw input and the option byte strings up to capacity; the memory layout of the parsed quote and the results of the byte-level steps are compared with the heap model; repeated calls must give the same verdict; a -race build runs the same calls from 8 goroutines on one message. non-trivial = the call reaches the byte handling (message passes the structure checks); distinct = distinct (quote, layout, call)"
+	c.Rule = "quotes from the world generator (valid under a generated PKI; QE auth data 0 / 32 / 700 bytes; extra bytes present or not) as raw bytes inside a sentinel-filled buffer with spare capacity, parsed (abi.QuoteToProto), rebuilt field by field under six memory layouts (exact capacity; own block with sentinel spare capacity; one arena with the fields back to back; reversed arena; equal fields aliased; QE auth data directly behind the attestation key inside its capacity, with gaps 0 / 16 / 200), and decoded from protobuf; around each single call of verify.TdxQuote (three option levels), verify.RawTdxQuote, validate.TdxQuote (options in sentinel buffers with spare capacity), validate.RawTdxQuote, abi.QuoteToAbiBytes, verify.ExtractChainFromQuote and abi.QuoteToProto a snapshot of every block reachable from the message, the raw input and the option byte strings up to capacity; the memory layout of the parsed quote and the results of the byte-level steps are compared with the heap model; repeated calls must give the same verdict; quotes parsed earlier must re-serialise to the same bytes after everything done since; a -race build first makes the process's very first library calls concurrently (8 goroutines verifying the Intel sample quote under the embedded root, each parsing a quote of its own and re-serialising it while the others parse) and then runs the same calls from 8 goroutines on one message. non-trivial = the call reaches the byte handling (message passes the structure checks); distinct = distinct (quote, layout, call)"
 	r := c.Rng
 	nWorlds := c.Scale(4, 40)
 	authLens := []int{32, 0, 700, 1, 64, 5000}
 	layouts := []string{"exact", "spare", "adjacent", "reversed", "aliased"}
+	// quotes parsed earlier and the bytes they serialised to then: every later call must leave them alone
+	type kept struct {
+		name string
+		q    *pb.QuoteV4
+		ser  []byte
+	}
+	var earlier []kept
 	for wi := 0; wi < nWorlds; wi++ {
 		pki, err := world.NewPKI(r, world.PKIOpts{Now: baseTime, Ext: world.RandomSGXExt(r)})
 		if err != nil {
@@ -384,6 +391,22 @@ func C16(c *core.Ctx) {
 			c16Message(c, wname+" "+v.name, w, v.q)
 		}
 		c16Raw(c, wname, w, raw, arena)
+		// a quote parsed from this world earlier must not be affected by anything done since
+		// (parsing and verifying other quotes included)
+		if keepAny, err := abi.QuoteToProto(append([]byte{}, w.Quote.Raw...)); err == nil {
+			kq := keepAny.(*pb.QuoteV4)
+			if ser, err := abi.QuoteToAbiBytes(kq); err == nil {
+				earlier = append(earlier, kept{wname, kq, ser})
+			}
+		}
+		gt := ""
+		for _, k := range earlier {
+			if ser, err := abi.QuoteToAbiBytes(k.q); err != nil || !bytes.Equal(ser, k.ser) {
+				gt = fmt.Sprintf("the quote parsed earlier from %s changed while later quotes were parsed and checked (it shares memory with something the library re-uses)", k.name)
+				break
+			}
+		}
+		c.Add(&core.Case{Class: "earlier-results", Desc: fmt.Sprintf("%d quotes parsed earlier re-serialised after %s", len(earlier), wname), SkipModel: true, Impl: core.Ls(), GT: gt, NonTrivial: true})
 	}
 	c16Race(c)
 }
